@@ -73,7 +73,7 @@ PROPS["C05"] = {
                 "checked on utils.NewRDBLoader by the handover cases"],
     "assumptions": ["status words are ASCII (a non-ASCII word is reported as `unmodelled`, never generated)",
                     "offsets stay below 2^63-1 (no int64 wrap-around of offset+1)",
-                    "reconnect path of runIncrementalSync (a second SendPSyncContinue whose results are discarded) is outside this property's model"],
+                    "reconnect path of runIncrementalSync: modelled after fix c30b00d (reconnect_continue_exact, reconnect_fullresync_aborts; `reconn` cases); the offset used for the re-PSYNC is C08's"],
 }
 
 # wall time is dominated by real timers / per-configuration groups: no budget escalation on source changes
